@@ -5,6 +5,7 @@ import PyImpSpec.Param.Model
 import PyImpSpec.Impedance.CQ
 import PyImpSpec.Gen.Kernels
 import PyImpSpec.Tlm
+import PyImpSpec.Select
 
 /-! Line-protocol driver: one request per line (`<model> <op> <args…>`), one canonical reply per line.
 Run with `lake env lean --run Driver/Main.lean`.  The harness sends the same inputs to the real
@@ -158,6 +159,16 @@ def DState.get (st : DState) (k : Nat) : Option DataSet.DS := (st.ds.find? (·.1
 def DState.put (st : DState) (k : Nat) (d : DataSet.DS) : DState :=
   { st with ds := (k, d) :: st.ds.filter (·.1 ≠ k) }
 
+
+/-! ### best-result selection -/
+
+def selReply (keys : String) : String :=
+  let ks := ints keys
+  let items : List (Int × Nat) := ks.zipIdx.map fun p => (p.1, p.2)
+  match Select.pickBest (fun p : Int × Nat => p.1) items with
+  | some w => s!"ok {w.2}"
+  | none => "err IndexError"
+
 def dsStep (st : DState) (args : List String) : DState × String :=
   match args with
   | ["reset"] => ({ st with ds := [] }, "ok")
@@ -267,6 +278,7 @@ def step (st : DState) (line : String) : DState × String :=
   | ["cdc", fl] => (st, cdcReply fl "")
   | "ds" :: args => dsStep st args
   | "pa" :: args => paStep st args
+  | ["sel", keys] => (st, selReply keys)
   | "tlm" :: which :: a :: b :: c :: d :: e :: binds => (st, tlmReply which [a, b, c, d, e] binds)
   | "ker" :: which :: sym :: binds => (st, kerReply which sym binds)
   | "imp" :: n :: toks => (st, impReply n.toNat! toks)
